@@ -16,11 +16,8 @@ def coeffSpec (xs : List Nat) (i : Nat) : Nat :=
       let xj := xs.getD j 0
       acc * xj % r * powMod ((xj + r - xi) % r) (r - 2) r % r) 1
 
-/-- the same coefficient from the limb-batched loop of the C code -/
-def coeffImpl (xs : List Nat) (i : Nat) : Nat :=
-  let (n, d, sg) := coeffParts r xs i
-  let d := if sg then (r - d) % r else d
-  n * powMod d (r - 2) r % r
+/-- the same coefficient from the limb-batched loop of the C code (`Model.Threshold.coeff`) -/
+def coeffImpl (xs : List Nat) (i : Nat) : Nat := coeff r xs i
 
 /-- `E1_lagrange_interpolate_at_zero_write`; the coefficient is computed both ways and must agree -/
 def interpolate (pairs : List (Nat × Bytes)) : Option Bytes := do
